@@ -201,4 +201,23 @@ example :
       some ([Ev.out 65, Ev.out 66, Ev.out 89], .returned) := by
   refine ⟨by decide, by decide +kernel, by decide +kernel, by decide +kernel⟩
 
+/-- the same through a defeat function: `!chk(x)` is `{ !truth_is_defeat(x > 5); write('c'); }`, called from the body of the
+`try/stop`.  The defeat happens two frames down (the handler gets `fp` back from `try_fp`, then `ap` from the frame slot);
+`core_try_stop_correct` covers such programs, the case is `Core.call_ok` with the callee in the caller's situation -/
+example :
+    let pr (v : Int) : Core.CProg :=
+      { params := [],
+        funs := [{ name := "!chk", params := ["x"], dfn := true,
+                   body := .defeatIf (.cmp .gt (.var "x") (.lit 5)) (.putc 99 .ret) }],
+        body := .decl "x" (.lit 5)
+          (.tryStop (.putc 65 (.assign "x" (.lit v) (.callS "!chk" [.var "x"] (.putc 66 .nil))))
+                    (.putc 83 .nil)
+            (.ifb (.cmp .eq (.var "x") (.lit 5)) (.putc 89 .nil) (.putc 78 .nil) .ret)) }
+    Core.wfProg (pr 9) = true ∧
+    (Core.srcRun ⟨2, 100, true⟩ 12 [] (pr 9)).map (fun r => (r.2.1, r.2.2)) =
+      some ([Ev.out 65, Ev.out 83, Ev.out 78], .returned) ∧
+    (Core.srcRun ⟨2, 100, true⟩ 12 [] (pr 5)).map (fun r => (r.2.1, r.2.2)) =
+      some ([Ev.out 65, Ev.out 99, Ev.out 66, Ev.out 89], .returned) := by
+  refine ⟨by decide, by decide +kernel, by decide +kernel⟩
+
 end HidVerif.Props.C02
